@@ -476,7 +476,14 @@ Ends == LET it == prog[Len(prog)] IN
                 \/ \E j \in DOMAIN prog[i].sub : prog[i].sub[j].form \in {"init", "initsrc", "copy", "ref"} /\ prog[i].sub[j].nm = it.nm
 Complete == Size = P.K /\ Ends /\ Finishable
 
-Write(pr) == Serialize(ToJson([prog |-> pr, c |-> IsC(pr), profile |-> P.name]) \o "\n", IOEnv.OUT,
+\* The hard case of class scope: a use bound to a declaration written LATER although a declaration of the same name is
+\* written before the use.  Emitted as a tag so that a sampled evaluation can make sure to contain these programs.
+LooksAhead(pr) == LET T == Toks(pr) IN
+  \E t \in T : /\ t.role = "use"
+               /\ \E d \in T : d.role = "decl" /\ d.id = t.id /\ d.i > t.i
+               /\ \E e \in T : e.role = "decl" /\ e.nm = t.nm /\ e.i < t.i
+
+Write(pr) == Serialize(ToJson([prog |-> pr, c |-> IsC(pr), profile |-> P.name, hard |-> LooksAhead(pr)]) \o "\n", IOEnv.OUT,
                        [format |-> "TXT", charset |-> "UTF-8", openOptions |-> <<"WRITE", "CREATE", "APPEND">>]).exitValue = 0
 Emit == Complete => Write(Finish(stack, prog))
 =============================================================================
